@@ -17,6 +17,42 @@ import report
 
 VERIF = facts.VERIF
 
+# properties whose rules identify every local variable structurally (by type, definition or role), never by spelling;
+# for these the thorough tier re-runs the rules on facts in which every user local / parameter / captured variable
+# of the crate is renamed, and requires the same verdict for every obligation (and the same mutants detected)
+RENAME_PROOF = {"C03", "C05", "C09", "C17", "C20"}
+
+
+def renamed(data):
+    import copy
+    d2 = copy.deepcopy(data)
+    facts.scramble_locals(d2)
+    return d2
+
+
+def verdicts(prop, mod, data):
+    C2 = report.Check(prop, "thorough", 0)
+    try:
+        mod.run(mir.Program(data), C2, "quick")
+    except mir.MissingAnchor as e:
+        C2.anchor_missing("engine", "uncaught", str(e))
+    return C2
+
+
+def rename_check(prop, mod, data, C):
+    """the verdict of every obligation is the same after renaming all locals of the crate"""
+    if prop not in RENAME_PROOF:
+        return []
+    a = verdicts(prop, mod, data)
+    b = verdicts(prop, mod, renamed(data))
+    va = sorted((o["key"], o["ok"]) for o in a.obligations)
+    vb = sorted((o["key"], o["ok"]) for o in b.obligations)
+    diff = sorted(set(va) ^ set(vb))
+    C.extra["rename_check"] = {"obligations": len(va), "differences": [list(x) for x in diff[:20]],
+                               "rule": "all user locals, parameters and captured variables renamed (facts level): every obligation keeps its key and verdict"}
+    print("selftest %s: renamed-locals run: %d obligations, %d differences" % (prop, len(va), len(diff)))
+    return ["renamed-locals (verdict depends on the spelling of a local variable): %s" % diff[:4]] if diff else []
+
 
 def scratch_copy():
     d = tempfile.mkdtemp(prefix="discret-variant-")
@@ -67,12 +103,14 @@ def run(prop, mod, C):
             except facts.NoVerdict as e:
                 results.append({"mutant": name, "status": "skipped: variant does not compile"})
                 continue
-            C2 = report.Check(prop, "thorough", 0)
-            try:
-                mod.run(mir.Program(data), C2, "quick")
-            except mir.MissingAnchor as e:
-                C2.anchor_missing("engine", "uncaught", str(e))
+            C2 = verdicts(prop, mod, data)
             failed = [o["key"] for o in C2.obligations if not o["ok"] and (prop, o["key"]) not in C2.known]
+            if prop in RENAME_PROOF:
+                # the variant must be judged the same way with every local renamed
+                C3 = verdicts(prop, mod, renamed(data))
+                failed3 = [o["key"] for o in C3.obligations if not o["ok"] and (prop, o["key"]) not in C3.known]
+                if sorted(failed3) != sorted(failed):
+                    failures.append(name + " (judged differently after renaming locals: %s)" % sorted(set(failed) ^ set(failed3))[:3])
             if os.sep + "neutral" + os.sep in p:
                 # behaviour-preserving variant: the rules must stay silent
                 results.append({"neutral_variant": name, "silent": not failed, "reported": failed[:8]})
